@@ -79,3 +79,64 @@ package writer
 //@   loop 1 invariant forall n node.Key :: __seen(n) ==> __in(oReqs, rs.addresses[n]) && __eq(oReqs[rs.addresses[n]], r)
 //@   loop 1 invariant forall a address.Address :: (forall n node.Key :: __seen(n) ==> rs.addresses[n] != a) ==> __in(oReqs, a) == old(__in(oReqs, a)) && __eq(oReqs[a], old(oReqs[a]))
 //@   loop 1 modifies oReqs
+
+//@ ignorepkg github.com/synnaxlabs/x/confluence/plumber
+//@ ignorepkg github.com/samber/lo
+//@ import channel "github.com/synnaxlabs/synnax/pkg/distribution/channel"
+
+//@ import alamos "github.com/synnaxlabs/alamos"
+//@ import confluence "github.com/synnaxlabs/x/confluence"
+//@ import freightfluence "github.com/synnaxlabs/freighter/freightfluence"
+//@ import freighter "github.com/synnaxlabs/freighter"
+//@ import proxy "github.com/synnaxlabs/synnax/pkg/distribution/proxy"
+
+//@ # constructors of pipeline segments: what they build is verified on the segments' own methods
+//@ # (sync, _switch); here they are opaque values handed to the plumber
+//@ trusted func newSynchronizer(nodeCount int, ins alamos.Instrumentation) (seg confluence.Segment[Response, Response])
+//@   modifies nothing
+//@ trusted func (s *Service) newGateway(ctx context.Context, cfg Config) (w StreamWriter, err error)
+//@   modifies nothing
+//@ trusted func (s *Service) newFree(mode Mode, sync bool, channels []channel.Channel, group uint32) (w StreamWriter)
+//@   modifies nothing
+//@ trusted func newPeerGatewayFreeSwitch(host node.Key, hasPeer bool, hasGateway bool, hasFree bool) (rl *peerGatewayFreeSwitch)
+//@   modifies nothing
+//@ trusted func newRequestSwitchSender(addresses proxy.AddressMap, senders map[address.Address]freighter.StreamSenderCloser[Request]) (sk confluence.Sink[Request])
+//@   modifies nothing
+//@ trusted func (s *Service) openPeerClient(ctx context.Context, target address.Address, cfg Config) (c ClientStream, err error)
+//@   modifies nothing
+//@ trusted func (s *Service) closePeerClients(senders map[address.Address]freighter.StreamSenderCloser[Request], originalErr error) (err error)
+//@   ensures originalErr != nil ==> err != nil
+//@   modifies nothing
+
+//@ # one entry per key, in key order, leased where the key is leased
+//@ func (c Config) keyAuthorities() (r []keyAuthority)
+//@   requires len(c.Authorities) > 0
+//@   ensures len(r) == len(c.Keys) && (forall i int :: 0 <= i && i < len(r) ==> r[i].key == c.Keys[i])
+//@   modifies nothing
+//@   loop 0 invariant len(authorities) == len(c.Keys) && (forall i int :: 0 <= i && i < __ri(0) ==> authorities[i].key == c.Keys[i])
+//@ func (c Config) setKeyAuthorities(authorities []keyAuthority) (r Config)
+//@   ensures len(r.Keys) == len(authorities) && (forall i int :: 0 <= i && i < len(authorities) ==> r.Keys[i] == authorities[i].key)
+//@   modifies nothing
+//@   loop 0 invariant len(c.Keys) == len(authorities) && len(c.Authorities) == len(authorities) && (forall i int :: 0 <= i && i < __ri(0) ==> c.Keys[i] == authorities[i].key)
+
+//@ # One receiver (and one receiver address) is opened per peer leaseholder.
+//@ func (s *Service) openManyPeers(ctx context.Context, cfg Config, targets map[node.Key][]keyAuthority) (sender confluence.Sink[Request], receivers []*freightfluence.Receiver[Response], addrs []address.Address, err error)
+//@   ensures err == nil ==> len(receivers) == len(targets) && len(addrs) == len(targets)
+//@   loop 0 invariant len(receivers) == __rc(0) && len(receiverAddresses) == __rc(0)
+//@   loop 0 modifies addrMap, senders
+
+//@ # The synchronizer acknowledges a command once it has seen nodeCount responses. NewStream must
+//@ # size it with the number of response sources it routes into it - one receiver per peer
+//@ # leaseholder, the gateway writer if the host leases a channel, the free writer if a channel is
+//@ # free - or a commit would be acknowledged before "every involved leaseholder committed" (too
+//@ # small) or never (too large). Verified from the routing decision on, for any validated config.
+//@ func (s *Service) NewStream(ctx context.Context, cfgs ...Config) (w StreamWriter, err error)
+//@   loop 0 modifies channelMap
+//@   pragma from HostKey()
+//@   pragma abstract UniqueLeaseholders NewKey
+//@   from_requires cfg.Sync != nil && len(cfg.Authorities) > 0
+//@   # ASSUMPTION (set cardinality, not proved): the distinct leaseholders of the keys are the peer
+//@   # buckets plus the host (if it leases a key) plus the free "node" (if a key is free)
+//@   assume_after "HostKey()" len(cfg.Keys.UniqueLeaseholders()) == len(batch.Peers) + __ite(hasGateway, 1, 0) + __ite(hasFree, 1, 0)
+//@   atcall newSynchronizer nodeCount == len(batch.Peers) + __ite(hasGateway, 1, 0) + __ite(hasFree, 1, 0)
+//@   assert_before "plumber.MultiRouter[Response]" len(receiverAddresses) == len(batch.Peers) + __ite(hasGateway, 1, 0) + __ite(hasFree, 1, 0)
